@@ -387,6 +387,10 @@ impl Interval {
     /// Compute the interval of possible results
     /// if one adds a value from `self` to a value from `rhs`.
     pub fn add(&self, rhs: &Interval) -> Interval {
+        if self.start == self.end && rhs.start == rhs.end {
+            // The result for constant values is exact even if the addition overflows.
+            return (self.start.clone() + &rhs.start).into();
+        }
         if let (Some(start), Some(end)) = (
             self.start.signed_add_overflow_checked(&rhs.start),
             self.end.signed_add_overflow_checked(&rhs.end),
@@ -404,6 +408,10 @@ impl Interval {
     /// Compute the interval of possible results
     /// if one subtracts a value in `rhs` from a value in `self`.
     pub fn sub(&self, rhs: &Interval) -> Interval {
+        if self.start == self.end && rhs.start == rhs.end {
+            // The result for constant values is exact even if the subtraction overflows.
+            return (self.start.clone() - &rhs.start).into();
+        }
         if let (Some(start), Some(end)) = (
             self.start.signed_sub_overflow_checked(&rhs.end),
             self.end.signed_sub_overflow_checked(&rhs.start),
@@ -423,6 +431,10 @@ impl Interval {
     pub fn signed_mul(&self, rhs: &Interval) -> Interval {
         if self.bytesize().as_bit_length() > 64 {
             return Interval::new_top(self.bytesize());
+        }
+        if self.start == self.end && rhs.start == rhs.end {
+            // The result for constant values is exact even if the multiplication overflows.
+            return (self.start.clone() * &rhs.start).into();
         }
         let val1 = self
             .start
